@@ -68,6 +68,11 @@ type Net struct {
 	Record bool
 	// OnSend is called (with the net lock held) for every frame a router sends.
 	OnSend func(c *Crossing)
+	// BeforeSend is called, with no lock held, on the goroutine of the router that hands a
+	// frame to a link, before anything is done with the frame: the place for a fault that
+	// lands in the middle of an operation of that router (a link going away while the router
+	// walks over its links).
+	BeforeSend func(l *Link, f frame.Frame)
 
 	ParseErrors int
 	Delivered   int
@@ -150,6 +155,9 @@ func (l *Link) SendPriority(f frame.Frame) error { return l.send(f, true) }
 func (l *Link) Send(f frame.Frame) error { return l.send(f, false) }
 
 func (l *Link) send(f frame.Frame, prio bool) error {
+	if h := l.net.BeforeSend; h != nil {
+		h(l, f)
+	}
 	// What the shipped writer does at the boundary: take the frame including
 	// the link-layer margins (the link header and MAC are written there), then
 	// release it. A frame without room for the margins is lost, exactly as on a
